@@ -9,18 +9,26 @@ HARNESS = os.path.join(VERIF, 'harness')
 BIN = os.path.join(HARNESS, 'target', 'debug', 'stamverif')
 
 
-def build_harness():
-    """Rebuild the harness against /repo's current working tree (hooks on via .cargo/config.toml)."""
-    t0 = time.time()
+def _alt_repo():
     repo = os.environ.get('VERIF_REPO')
-    if repo and repo != '/repo':
-        # background runs on a snapshot (vp run --with-repo): point this copy of the harness at that snapshot
-        ct = os.path.join(HARNESS, 'Cargo.toml')
-        txt = open(ct).read()
-        open(ct, 'w').write(re.sub(r'stam = \{ path = "[^"]*" \}', 'stam = { path = "%s" }' % repo, txt))
+    return repo if repo and os.path.abspath(repo) != '/repo' else None
+
+
+def harness_bin():
+    return os.path.join(HARNESS, 'target_alt' if _alt_repo() else 'target', 'debug', 'stamverif')
+
+
+def build_harness():
+    """Rebuild the harness against /repo's current working tree (hooks on via .cargo/config.toml).
+    VERIF_REPO=<dir> (used only to evaluate seeded defects in a scratch worktree while /repo is busy) overrides the
+    path dependency through cargo's `paths` setting and builds into a separate target directory."""
+    t0 = time.time()
     env = dict(os.environ, CARGO_NET_OFFLINE='true')
-    p = subprocess.run(['cargo', 'build', '--offline'], cwd=HARNESS, env=env, stdout=subprocess.PIPE,
-                       stderr=subprocess.STDOUT, text=True)
+    cmd = ['cargo', 'build', '--offline']
+    alt = _alt_repo()
+    if alt:
+        cmd += ['--config', 'paths=["%s"]' % alt, '--target-dir', os.path.join(HARNESS, 'target_alt')]
+    p = subprocess.run(cmd, cwd=HARNESS, env=env, stdout=subprocess.PIPE, stderr=subprocess.STDOUT, text=True)
     if p.returncode != 0:
         raise ToolError('cargo build of the harness failed:\n' + p.stdout[-4000:])
     return time.time() - t0
@@ -67,7 +75,7 @@ def replay(name, behaviours, style=0, extra_env=None):
     env = dict(os.environ, VERIF_IDSTYLE=str(style))
     if extra_env:
         env.update(extra_env)
-    p = subprocess.run([BIN, 'replay', inp, out], env=env, stdout=subprocess.PIPE, stderr=subprocess.PIPE, text=True)
+    p = subprocess.run([harness_bin(), 'replay', inp, out], env=env, stdout=subprocess.PIPE, stderr=subprocess.PIPE, text=True)
     if p.returncode != 0:
         raise ToolError(f'harness failed (rc={p.returncode}): {p.stderr[-2000:]}')
     return out
